@@ -107,6 +107,35 @@ func verifNumPrefix(s string) (start, end, kind int, hexExp bool) {
 
 func verifSameFloat(a, b float64) bool { return a == b || (a != a && b != b) }
 
+// inf / nan spellings behind leading blanks and a sign, with a symbolic tail: same oracle on longer strings
+func VerifC05PrefixInfNan() {
+	b0, sign := verifByte(), verifByte()
+	word := []string{"inf", "nan", "INF", "NaN", "infinity", "in", "na"}[verifIntRange(0, 6)]
+	s := string([]byte{b0}) + string([]byte{sign}) + word + verifString(verifIntRange(0, 1))
+	if verifIntRange(0, 1) == 1 {
+		s = s[1:] // without the leading byte
+	}
+	got := parseFloatPrefix(s)
+	start, end, kind, hexExp := verifNumPrefix(s)
+	switch kind {
+	case 0:
+		verifAssert(got == 0, "prefix number: a string without a numeric prefix does not convert to 0")
+	case 3:
+		verifReach("nan")
+		verifAssert(got != got, "prefix number: nan prefix does not convert to NaN")
+	case 4:
+		verifReach("inf")
+		verifAssert(math.IsInf(got, 0) && (got < 0) == (s[start] == '-'), "prefix number: inf prefix does not convert to the signed infinity")
+	default:
+		txt := s[start:end]
+		if kind == 2 && !hexExp {
+			txt += "p0"
+		}
+		want, _ := strconv.ParseFloat(txt, 64)
+		verifAssert(verifSameFloat(got, want), "prefix number: value differs from the value of the longest leading numeric prefix")
+	}
+}
+
 // the value parseFloatPrefix returns is the value of the longest numeric prefix (0 if none)
 func VerifC05Prefix() {
 	n := verifIntRange(0, verifBound(3, 5))
